@@ -31,6 +31,8 @@
 // --mode xref --extra FILE: print reference and library values for the records
 //   of FILE (u32 length + bytes each) so that the driver can compare them with
 //   Python's zlib/hashlib and with released liblzma binaries.
+// --mode xrefcheck --extra FILE: the same, and exit 1 when the library differs
+//   from the references (replay of a cross-check violation).
 #define _GNU_SOURCE
 #include "vh.h"
 #include "ref/check_ref.h"
@@ -71,6 +73,9 @@ extern void lzma_check_update(chk_state *check, lzma_check type, const uint8_t *
 extern void lzma_check_finish(chk_state *check, lzma_check type);
 
 static hx_args A;
+// count this engine's violations: `--only` (replay) exits 1 when the case still fails
+static unsigned long n_my_viol;
+#define hx_violation(...) (++n_my_viol, hx_violation(__VA_ARGS__))
 static const char *PROP = "C14";
 static const char *FLAV = "";      // "" for asan, "@small", "@noclmul"
 static bool have_gen32, have_gen64, have_arch32, have_arch64;
@@ -614,8 +619,11 @@ static bool known_answers(void)
 	return ok;
 }
 
-static int xref_mode(const char *path)
+// check == true ("xrefcheck", used by replays): exit 1 when the library
+// disagrees with the references on a record.
+static int xref_mode(const char *path, bool check)
 {
+	int rc = 0;
 	vbuf f = {0};
 	if (!load_file(path, &f)) { fprintf(stderr, "hx_check: cannot read %s\n", path); return 2; }
 	size_t pos = 0; unsigned i = 0;
@@ -631,18 +639,24 @@ static int xref_mode(const char *path)
 				"\",\"ref_sha256\":\"%s\",\"lib_crc32\":\"%08x\",\"lib_crc64\":\"%016" PRIx64 "\",\"lib_sha256\":\"%s\"}\n",
 				i, n, ref_crc32(d, n, 0), ref_crc32_bitwise(d, n, 0), ref_crc64(d, n, 0), ref_crc64_bitwise(d, n, 0),
 				hex32(sha, h1), lzma_crc32(d, n, 0), lzma_crc64(d, n, 0), hex32(lsha, h2));
+		if (check && (lzma_crc32(d, n, 0) != ref_crc32_bitwise(d, n, 0) || lzma_crc64(d, n, 0) != ref_crc64_bitwise(d, n, 0)
+				|| memcmp(sha, lsha, 32) != 0)) {
+			printf("{\"t\":\"note\",\"s\":\"record %u (%u bytes): library and reference disagree\"}\n", i, n);
+			rc = 1;
+		}
 		free(d);
 		++i;
 	}
 	vbuf_free(&f);
-	return 0;
+	return rc;
 }
 
 int main(int argc, char **argv)
 {
 	hx_parse(argc, argv, &A);
 	if (A.prop[0]) PROP = A.prop;
-	if (!strcmp(A.mode, "xref")) return xref_mode(A.extra);
+	if (!strcmp(A.mode, "xref")) return xref_mode(A.extra, false);
+	if (!strcmp(A.mode, "xrefcheck")) return xref_mode(A.extra, true);
 	static char flav[48];
 	if (A.mode[0] && strcmp(A.mode, "asan") != 0) { snprintf(flav, sizeof(flav), "@%s", A.mode); FLAV = flav; }
 	have_gen32 = lzma_verif_crc32_generic != NULL;
@@ -669,5 +683,5 @@ int main(int argc, char **argv)
 	hx_count("crc_arch_evaluations", n_arch_eval);
 	hx_count("crc_generic_evaluations", n_generic_eval);
 	hx_finish();
-	return 0;
+	return (A.only >= 0 && n_my_viol) ? 1 : 0;
 }
